@@ -28,6 +28,8 @@ CONSTANTS
                    \*          context is rejected); FALSE = pinned (only operations registered in THIS invocation are known)
   AtomicCallback,  \* BOOLEAN: TRUE = code as fixed (a done-callback's status write, counter update and decision run under one lock);
                    \*          FALSE = pinned original (status write, counter update, should_complete(), scan: separate unprotected steps)
+  FixStepGuard,    \* BOOLEAN: TRUE = code as fixed (a step asks ensure_not_orphaned() before it runs the user function: a retry attempt
+                   \*          found READY sends no update, hence passed no orphan check); FALSE = pinned original
   ResubmitUnderLock, \* BOOLEAN: FALSE = code as fixed (the timer thread releases TimerScheduler._lock before it resubmits a due branch);
                    \*          TRUE = pinned original (the lock is held for the whole refresh checkpoint + re-submission)
   ResetFirst       \* BOOLEAN: TRUE = code as it is (the timer thread resets a due branch to PENDING BEFORE the refresh checkpoint);
@@ -36,7 +38,10 @@ CONSTANTS
 \* The configuration of the call: a *variable that never changes* (cf' = cf), so that one TLC run can validate traces of
 \* many differently configured calls.  cf = [script, maxc, mins, tolc, tolp, tfail]
 \*   script[i] : sequence of atoms; "step" (a durable step: START, function, SUCCEED), then one of "ok" "fail" "susp" "tsusp" "bte";
-\*               after "tsusp" the script continues when the branch is resubmitted
+\*               after "tsusp" the script continues when the branch is resubmitted.  Retrying steps: "sfail" (START, function
+\*               raises, RETRY recorded, the branch parks on the retry timer), "sretry" (the attempt found READY after the
+\*               resubmission: no START, function, SUCCEED), "sfinal" (START, function raises, FAIL recorded); "sretryfail" /
+\*               "sretryfinal": a READY attempt whose function raises again (RETRY and park / FAIL)
 \*   maxc : max_concurrency (0 = None); mins : min_successful (0 = None); tolc : tolerated_failure_count (99 = None);
 \*   tolp : tolerated_failure_percentage (999 = None); tfail : BOOLEAN, the timer thread's refresh checkpoint may fail
 \*   pre  : sequence of the branches whose context already exists when the call starts (a re-invocation: the branch is re-entered without a
@@ -250,9 +255,12 @@ LateU(i) == IF parentSent THEN late \cup {<<i, "update">>} ELSE late
 \* Both are separate steps (faithful): `chk` holds the branches that passed the check and have not enqueued yet.
 \* An update enqueued after the parent's completion record although its check passed before is tagged "update-race".
 \* ("wstart": the synchronous START of the wait / callback with which a tsusp / susp atom begins)
-IsCkptPhase(i) == sub[i] \in {"ctxStart", "start", "succeed", "wstart"} \/ (sub[i] = "atom" /\ Atom(i) \in {"ok", "fail"})
-CkOp(i) == IF sub[i] \in {"start", "succeed", "wstart"} THEN StepOp(i) ELSE Ctx(i)
-CkPar(i) == IF sub[i] \in {"start", "succeed", "wstart"} THEN Ctx(i) ELSE <<"p">>
+StepPhases == {"start", "succeed", "wstart", "retry", "failrec"}
+IsCkptPhase(i) == sub[i] \in ({"ctxStart"} \cup StepPhases) \/ (sub[i] = "atom" /\ Atom(i) \in {"ok", "fail"})
+CkOp(i) == IF sub[i] \in StepPhases THEN StepOp(i) ELSE Ctx(i)
+CkPar(i) == IF sub[i] \in StepPhases THEN Ctx(i) ELSE <<"p">>
+\* how a parked body ends: a retrying step parks on its retry timer like a wait
+ParkOut(i) == IF Atom(i) \in {"sfail", "sretryfail"} THEN "tsusp" ELSE Atom(i)
 \* after a resubmission the branch context exists already: no START is sent for it
 CtxExists(i) == sub[i] = "ctxStart" /\ (Ctx(i) \in reg \/ (\E k \in DOMAIN cf.pre : cf.pre[k] = i))
 
@@ -290,6 +298,12 @@ BodyPut(i) ==
        [] sub[i] = "wstart" ->
             BSet(i, reg, "park", bpos[i], fout[i], "run", active, LateTag(i, FALSE),
                  IF parentSent THEN known \cup {IF FixOrphanParent THEN "check-then-put" ELSE "orphan-first-time-op"} ELSE known)
+       [] sub[i] = "retry" ->     \* RETRY recorded (synchronous): the branch parks on the retry timer
+            BSet(i, reg, "park", bpos[i], fout[i], "run", active, LateTag(i, FALSE),
+                 IF parentSent THEN known \cup {"check-then-put"} ELSE known)
+       [] sub[i] = "failrec" ->   \* FAIL recorded (synchronous): the step raises in the body
+            BSet(i, reg, "atom", bpos[i] + 1, fout[i], "run", active, LateTag(i, FALSE),
+                 IF parentSent THEN known \cup {"check-then-put"} ELSE known)
        [] OTHER ->    \* child context SUCCEED / FAIL: synchronous - the body ends when the checkpoint call returns (ctxWait)
             BSet(i, reg, "ctxWait", bpos[i], fout[i], "run", active, LateTag(i, FALSE),
                  IF parentSent THEN known \cup {"check-then-put"} ELSE known)
@@ -299,13 +313,24 @@ BodyOther(i) ==
   /\ wph[i] = "run" /\ i \notin chk /\ chk' = chk /\ chkLate' = chkLate
   /\ (~IsCkptPhase(i) \/ CtxExists(i))
   /\ CASE CtxExists(i) -> BSet(i, reg, "atom", bpos[i], fout[i], "run", active, late, known)
-       [] sub[i] = "atom" /\ Atom(i) = "step" -> BSet(i, reg, "start", bpos[i], fout[i], "run", active, late, known)
-       [] sub[i] = "fn" -> BSet(i, reg, "succeed", bpos[i], fout[i], "run", active, late, known)     \* the user function runs
+       [] sub[i] = "atom" /\ Atom(i) \in {"step", "sfail", "sfinal"} -> BSet(i, reg, "start", bpos[i], fout[i], "run", active, late, known)
+       \* the user function runs (and returns, or raises: a retry or the final failure is recorded next)
+       [] sub[i] = "fn" -> BSet(i, reg, CASE Atom(i) \in {"sfail", "sretryfail"} -> "retry" [] Atom(i) \in {"sfinal", "sretryfinal"} -> "failrec"
+                                        [] OTHER -> "succeed",
+                                bpos[i], fout[i], "run", active, late, known)
+       \* a retry attempt found READY: no update is sent; (fixed code) the explicit orphan check, then the function is entered
+       [] sub[i] = "atom" /\ Atom(i) \in {"sretry", "sretryfail", "sretryfinal"} ->
+            IF FixStepGuard /\ Rejected(StepOp(i), Ctx(i))
+              THEN End(i, "orphan", late, known)
+              ELSE BSet(i, reg, "enter", bpos[i], fout[i], "run", active, late, known)
+       [] sub[i] = "enter" ->
+            BSet(i, reg, "fn", bpos[i], fout[i], "run", active,
+                 IF parentSent THEN late \cup {<<i, IF FixStepGuard THEN "fn-race" ELSE "fn">>} ELSE late, known)
        [] sub[i] = "ctxWait" -> End(i, Atom(i), late, known)                  \* the context's completion checkpoint returned
        \* a wait / callback: its START is checkpointed first (wstart), then the branch parks
        [] sub[i] = "atom" /\ Atom(i) \in {"susp", "tsusp"} -> BSet(i, reg, "wstart", bpos[i], fout[i], "run", active, late, known)
        [] sub[i] = "park" \/ (sub[i] = "atom" /\ Atom(i) = "bte") ->
-            BSet(i, reg, "atom", IF Atom(i) = "tsusp" THEN bpos[i] + 1 ELSE bpos[i], Atom(i), "done", active - 1, late, known)
+            BSet(i, reg, "atom", IF ParkOut(i) = "tsusp" THEN bpos[i] + 1 ELSE bpos[i], ParkOut(i), "done", active - 1, late, known)
        [] OTHER -> FALSE
 
 \* the checkpoint pipeline has failed (cf.tfail): whichever create_checkpoint call the branch makes or is blocked in next raises
